@@ -694,7 +694,6 @@ class Formatter:
         return f"SELECT DISTINCT {param}"
 
     def from_(self, json, prec):
-        joiner = ", "
         from_ = json["from"]
         if isinstance(from_, dict) and "literal" in from_:
             content = ", ".join(self._literal(row) for row in from_["literal"])
@@ -707,11 +706,10 @@ class Formatter:
         parts = []
         for v in from_:
             if join_keywords & set(v):
-                joiner = " "
-                parts.append(self._join_on(v, precedence["from"] - 1))
+                parts.append(" " + self._join_on(v, precedence["from"] - 1))
             else:
-                parts.append(self.dispatch(v, precedence["from"] - 1))
-        rest = joiner.join(parts)
+                parts.append(", " + self.dispatch(v, precedence["from"] - 1))
+        rest = "".join(parts)[2:] if parts and parts[0].startswith(", ") else "".join(parts)[1:]
         return f"FROM {rest}"
 
     def where(self, json, prec):
